@@ -25,6 +25,7 @@ func propC03() Property {
 			{ID: "C03-R5", Desc: "gap-fill field binding and placement", Min: 6, Run: c03R5},
 			{ID: "C03-R6", Desc: "the end-of-body mark moves only over body fields", Min: 3, Run: c03R6},
 			{ID: "C03-R7", Desc: "the whole reply to a ResendRequest is sent under the resend lock (= C02-R5)", Min: 3, Run: c02R5},
+			{ID: "C03-R12", Desc: "a reset leaves no message of the previous epoch on any store (= C16-R4)", Min: 3, Run: c16R4},
 			{ID: "C03-R11", Desc: "the resend of a stored message is agreed only when ToApp returned nil", Min: 1, Run: c03R11},
 			{ID: "C03-R10", Desc: "sql store: what a send stores is keyed like what a replay reads (= C16-R14)", Min: 40, Run: c16R14},
 			{ID: "C03-R9", Desc: "the start-of-body mark stops at the first body field", Min: 2, Run: c03R9},
